@@ -21,6 +21,9 @@
                                 AccError() != nil, the value re-encoded
      DG id maxNr hex obs        mp4.DecodeDescriptor(sr, maxNr) likewise
      EB id hex obs obsSR        mp4.DecodeBox / mp4.DecodeBoxSR on the bytes of an esds box
+     AR id hex obs              DecodeAudioSpecificConfig on arbitrary bytes; if ok: Encode of the result and the decoder again;
+                                the hypothesis of the round-trip theorem (canonical) is evaluated on the result: "OK id hyp=1"
+     HR id hex obs              the same for DecodeADTSHeader / ADTSHeader.Encode (hyp = id 0, header length 7, payload <= 8184)
    ED cases outside the modelled decoder path are answered "SKIP <id>" *)
 open Vx
 open Base
@@ -258,9 +261,47 @@ let () =
           | EOk ((name, size), (rest, _)) ->
             if not (list_eqb name fourcc_esds) then "skip"
             else if L.length rest + 8 < int_of_n size then "err"
-            else esds_body_obs rest in
+            else
+              (* DecodeEsdsSR (repo fix 27ea537) reads version/flags and the descriptors from a reader of its own
+                 over the payload of the box: the bytes after the box are not seen *)
+              esds_body_obs (L.filteri (fun i _ -> i < int_of_n size - 8) rest) in
         if (m = "skip" || m = obs) && (m_sr = "skip" || m_sr = obs_sr) then
           Printf.printf "%s %s\n" (if m = "skip" && m_sr = "skip" then "SKIP" else "OK") id
         else if not (m = "skip" || m = obs) then Printf.printf "MISMATCH %s DecodeBox(esds) model=%s\n" id m
         else Printf.printf "MISMATCH %s DecodeBoxSR(esds) model=%s\n" id m_sr
+      | ["AR"; id; hex; obs] ->
+        (* decoder range: the hypothesis of C18_asc_roundtrip evaluated on what the decoder returned
+           (C18_decode_asc_canonical says it always holds), then decode -> encode -> decode *)
+        let r = decode_asc (bytes_of_hex hex) in
+        (match r with
+         | Ok a ->
+           let m = match encode_asc a with
+             | Ok bs -> asc_obs r ^ "|" ^ hex_of_bytes bs ^ "|" ^ asc_obs (decode_asc bs)
+             | Err -> asc_obs r ^ "|err"
+             | _ -> asc_obs r ^ "|panic" in
+           if m <> obs then Printf.printf "MISMATCH %s asc-decode-encode-decode model=%s\n" id m
+           else if not (canonical a) then Printf.printf "MISMATCH %s asc-decoder-result-not-canonical model=%s\n" id m
+           else if not (asc_roundtrip_ok a) then Printf.printf "MISMATCH %s asc-decoder-result-does-not-roundtrip model=%s\n" id m
+           else Printf.printf "OK %s hyp=1\n" id
+         | _ ->
+           let m = asc_obs r in
+           if m = obs then Printf.printf "OK %s hyp=-\n" id
+           else Printf.printf "MISMATCH %s asc-decode-encode-decode model=%s\n" id m)
+      | ["HR"; id; hex; obs] ->
+        (* the same for DecodeADTSHeader; hypothesis of C18_decode_adts_canonical: MPEG-4 id, 7-byte header,
+           frame length >= 7 *)
+        let r = decode_adts (bytes_of_hex hex) in
+        (match r with
+         | Ok (h, _) ->
+           let bs = encode_adts h in
+           let m = adts_obs r ^ "|" ^ hex_of_bytes bs ^ "|" ^ adts_obs (decode_adts bs) in
+           let guard = int_of_n h.h_id = 0 && int_of_n h.h_hlen = 7 && int_of_n h.h_plen <= 8184 in
+           if m <> obs then Printf.printf "MISMATCH %s adts-decode-encode-decode model=%s\n" id m
+           else if guard && not (adts_canonical h) then Printf.printf "MISMATCH %s adts-decoder-result-not-canonical model=%s\n" id m
+           else if guard && not (adts_roundtrip_ok [] h []) then Printf.printf "MISMATCH %s adts-decoder-result-does-not-roundtrip model=%s\n" id m
+           else Printf.printf "OK %s hyp=%d\n" id (if guard then 1 else 0)
+         | _ ->
+           let m = adts_obs r in
+           if m = obs then Printf.printf "OK %s hyp=-\n" id
+           else Printf.printf "MISMATCH %s adts-decode-encode-decode model=%s\n" id m)
       | _ -> Printf.printf "BADLINE %s\n" line)
